@@ -158,7 +158,10 @@ def regen_all():
                     if write_if_changed(os.path.join(LEAN, o), t):
                         log("[regen] %s rewritten" % o)
             except Exception as ex:
-                log("[regen] %s.%s failed (left as is): %r" % (mod, fn, ex))
+                # a generated file may be stale (written from a differently patched tree): fall back to the committed version
+                for o in outs:
+                    sh(["git", "-C", VERIF, "checkout", "--", os.path.join("lean", o)])
+                log("[regen] %s.%s failed (committed version restored): %r" % (mod, fn, ex))
 
 
 def lake_build(targets, timeout=3000):
@@ -334,13 +337,24 @@ def lean_obligations(ctx, lake_targets, audit_imports, theorems, forbidden_modul
     """step 3 of a check: build, axiom audit, forbidden-token grep.  Returns True iff all discharged.
     Each theorem is one obligation."""
     regen_all()
+    if "symdrv" in lake_targets:
+        # the model driver first and on its own: it does not depend on any lemma file, so the correspondence and the violation search
+        # can still run when a proof about a regenerated table no longer checks
+        lake_build(["symdrv"])
     ok, out = lake_build(lake_targets)
+    build_failed = []
     if not ok:
-        errs = failed_decls(out)
-        for t in theorems:
-            ctx.oblige("theorem " + t, False, "lake build failed")
-        ctx.lake_errors = errs
-        return False
+        # which of the property's modules still build?  theorems of the others are the failed obligations
+        ctx.lake_errors = failed_decls(out)
+        good = []
+        for m in audit_imports:
+            okm, _ = lake_build([m])
+            (good if okm else build_failed).append(m)
+        if not good:
+            for t in theorems:
+                ctx.oblige("theorem " + t, False, "lake build failed")
+            return False
+        audit_imports = good
     rc, axioms, missing, raw = audit_axioms(audit_imports, theorems)
     allok = True
     for t in theorems:
@@ -351,7 +365,7 @@ def lean_obligations(ctx, lake_targets, audit_imports, theorems, forbidden_modul
                 if k.split(".")[-1] == t.split(".")[-1]:
                     ax = v
         if ax is None:
-            allok = ctx.oblige("theorem " + t, False, "not found by #print axioms: " + raw[-300:]) and allok
+            allok = ctx.oblige("theorem " + t, False, ("its module no longer builds (%s)" % ",".join(build_failed)) if build_failed else ("not found by #print axioms: " + raw[-300:])) and allok
             continue
         bad = [a for a in ax if a not in ALLOWED_AXIOMS]
         allok = ctx.oblige("theorem " + t, not bad, "axioms: " + ",".join(ax)) and allok
@@ -362,8 +376,9 @@ def lean_obligations(ctx, lake_targets, audit_imports, theorems, forbidden_modul
     if ctx.thorough:
         bad = leanchecker([m for m in audit_imports])
         allok = ctx.oblige("leanchecker " + ",".join(audit_imports), not bad, str(bad)[:300]) and allok
-    ctx.lake_errors = []
-    return allok
+    if not build_failed:
+        ctx.lake_errors = []
+    return allok and not build_failed
 
 
 def rng(seed, tag=""):
